@@ -2,14 +2,14 @@
 import ast
 
 from ..model import AnalysisError, dotted, unparse, ClassInfo
-from ..util import U, enum_paths, walk_no_nested, is_yield_call, Yields
+from ..util import POS, FACTS, FACTS_I, U, enum_paths, walk_no_nested, is_yield_call, Yields
 from ..paths import call_attr, call_name
 
 WM = 'scales/pool/watermark.py'
 
 
 def facts(ev, upto=None):
-  return [(U(e.node).replace(' ', ''), e.info) for e in (ev if upto is None else ev[:upto]) if e.kind == 'cond']
+  return FACTS(ev if upto is None else ev[:upto])
 
 
 def size_writes(ev):
@@ -71,7 +71,7 @@ def r1_r4(ctx, cls):
              'a connection that dies must close the pool (C09 fault chain)', nontrivial=False)
     elif isinstance(rv, ast.Call) and U(rv.func) == 'QueuingMessageSink':
       n_queue += 1
-      bound = [(c, t) for c, t in fs if 'len(self._waiters)' in c and '_max_queue_size' in c]
+      bound = [(c, t) for c, t in POS(fs) if 'len(self._waiters)' in c and '_max_queue_size' in c]
       ok = (('len(self._waiters)+1>self._max_queue_size', False) in bound or ('len(self._waiters)+1<=self._max_queue_size', True) in bound
             or ('len(self._waiters)>=self._max_queue_size', False) in bound or ('len(self._waiters)<self._max_queue_size', True) in bound)
       ok = ok and [U(a) for a in rv.args] == ['self._waiters']
@@ -194,7 +194,7 @@ def r5(ctx, cls):
     fs = facts(ev)
     sw = size_writes(ev)
     text = [c for c, t in fs]
-    ph = [(c, t) for c, t in fs if c.startswith('isinstance(%s,' % sink)]
+    ph = [(c, t) for c, t in POS(fs) if c.startswith('isinstance(%s,' % sink)]
     is_placeholder = any(t for c, t in ph)
     acts = {
       'spawn': [e for e in ev if e.kind == 'call' and call_name(e.node) == 'gevent.spawn' and e.node.args and U(e.node.args[0]) == 'self._ProcessQueue'],
@@ -301,7 +301,7 @@ def r6(ctx, cls):
         continue
       t = p.targets[0]
       ws = U(t.elts[0]) if isinstance(t, ast.Tuple) else '?'
-      fs = [(U(e.node).replace(' ', ''), e.info) for e in ev[i:nxt] if e.kind == 'cond']
+      fs = FACTS(ev[i:nxt])
       ok = ('not%s.Any()' % ws, True) in fs or ('%s.Any()' % ws, False) in fs
       ctx.ob('C07.R6', pq, 'a waiter is skipped only if its stack is already drained', ok, 'waiter dropped under facts %s' % fs,
              'dropping a live waiter loses its request')
